@@ -343,9 +343,34 @@ Inductive pj := PJInvalid | PJOther | PJObj (kvs : amap).
 Inductive content := CW (d : amap) (k n : nat) | CForeign (p : pj).
 Record disk := { target : option content; tmp : option content }.
 
+(* what the JSON TEXT of a document reads back as.  json.dump (ensure_ascii) writes every code point above U+FFFF as
+   the escape pair of its two UTF-16 surrogates and every surrogate code point of a str as its own escape; json.load
+   joins an escaped high surrogate directly followed by an escaped low one into ONE code point.  So a str holding a
+   high surrogate directly followed by a low surrogate as two code points comes back as a different, shorter str
+   (open finding C17/adjacent-surrogate-pair-not-restored); every other str comes back as it is. *)
+Definition is_high (c : N) : bool := N.leb 55296 c && N.leb c 56319.     (* U+D800 .. U+DBFF *)
+Definition is_low (c : N) : bool := N.leb 56320 c && N.leb c 57343.      (* U+DC00 .. U+DFFF *)
+Definition join_pair (h l : N) : N := (65536 + (h - 55296) * 1024 + (l - 56320))%N.
+Fixpoint jtext_str (s : str) : str :=
+  match s with
+  | [] => []
+  | h :: t => match t with
+              | l :: r => if is_high h && is_low l then join_pair h l :: jtext_str r else h :: jtext_str t
+              | [] => [h]
+              end
+  end.
+Fixpoint jtext_val (v : val) : val :=
+  match v with
+  | VStr s => VStr (jtext_str s)
+  | VSeq l => VSeq (map jtext_val l)
+  | VMap kvs => VMap (map (fun kv => let '(k, x) := kv in (jtext_str k, jtext_val x)) kvs)
+  | _ => v
+  end.
+Definition jtext (d : amap) : amap := map (fun kv => (fst kv, jtext_val (snd kv))) d.
+
 Definition parse (c : content) : pj :=
   match c with
-  | CW d k n => if Nat.leb (n - 1) k then PJObj d else PJInvalid
+  | CW d k n => if Nat.leb (n - 1) k then PJObj (jtext d) else PJInvalid
   | CForeign p => p
   end.
 
